@@ -12,7 +12,7 @@ CONSTANTS
     L, P,       \* scripts: at most L items and P Pendings per upstream
     VALS,       \* item values
     HMS,        \* hint modes of the scripted upstreams: 0 exact, 1 loose (c-1, c+1), 2 (0, None)
-    KNOWN,      \* rules the transcribed code is known to break (listed in known_findings.d)
+    KNOWN,      \* rules the transcribed code is known to break (listed in known_findings.d; none at present)
     EMIT
 
 VARIABLES
@@ -296,7 +296,9 @@ HintN(nd, st, env) ==
                      [] hm = 1 -> <<SatSub(c, 1), c + 1>>
                      [] OTHER -> <<0, -1>>
       [] k \in {"map", "inspect", "enumerate", "compat"} -> h
-      [] k \in {"filter", "filter_map", "take_while", "filter_map_async"} -> <<0, h[2]>>
+      [] k \in {"filter", "filter_map", "take_while"} -> <<0, h[2]>>
+      \* filter_map_async.rs: the item held by the in-flight future is no longer counted by prev
+      [] k = "filter_map_async" -> <<0, HiMap(h[2], LAMBDA u : u + (IF st.v = <<>> THEN 0 ELSE 1))>>
       [] k = "skip" -> <<SatSub(h[1], st.v[1]), HiMap(h[2], LAMBDA u : SatSub(u, st.v[1]))>>
       [] k = "skip_while" -> IF st.v[1] = 1 THEN <<0, h[2]>> ELSE h
       [] k = "take" -> <<Min(h[1], st.v[1]), IF h[2] = -1 THEN st.v[1] ELSE Min(h[2], st.v[1])>>
